@@ -36,6 +36,28 @@ theorem zero_shl (b : Nat) : 0 <<< b = 0 := by simp
 
 theorem and_mask (x n : Nat) : x &&& (2 ^ n - 1) = x % 2 ^ n := Nat.and_two_pow_sub_one_eq_mod x n
 
+/-- The evaluation shortcut in `evalBody (.bitsLe .shl bound)` does not change the function. -/
+theorem bitsLe_shl_shortcut (a b bound : Nat) (ha : a ≠ 0) (hb : b > bound) :
+    ctFilter (bigOp .shl a b) (fun r => decide (bits r ≤ bound)) = .decline := by
+  simp only [bigOp, ctFilter]
+  have hge : 2 ^ b ≤ a <<< b := by
+    rw [Nat.shiftLeft_eq]
+    have : 1 * 2 ^ b ≤ a * 2 ^ b := Nat.mul_le_mul_right _ (Nat.pos_of_ne_zero ha)
+    omega
+  have hne : a <<< b ≠ 0 := by
+    have : 0 < 2 ^ b := Nat.two_pow_pos b
+    omega
+  have hbits : ¬ bits (a <<< b) ≤ bound := by
+    unfold bits
+    simp only [hne, if_false]
+    have hlog : b ≤ Nat.log2 (a <<< b) := by
+      apply Classical.byContradiction
+      intro hlt
+      have := (Nat.log2_lt hne).1 (Nat.lt_of_not_le hlt)
+      omega
+    omega
+  simp [hbits]
+
 /-! ## operand classes -/
 
 /-- Bounds / operand passing of the two operands, determined by the arm's kinds. -/
@@ -217,7 +239,7 @@ theorem ps_lt : PairSound .n64 (.ltOp) (.lt) := by
 
 theorem ps_wadd : PairSound .wideWide (.big (.bitsLe .add 256)) (.wqop .add true) := by
   intro ty a b v ha hb hct
-  simp only [ctMethod, ctEval, evalBody, bigOp, ctFilter] at hct
+  simp only [ctMethod, ctEval, evalBody, bigOp, ctFilter, reduceCtorEq, false_and, if_false] at hct
   simp only [vmExec, wideOp, Cls.rhsWide, if_true]
   split at hct <;> simp at hct
   subst hct
@@ -236,7 +258,7 @@ theorem ps_wsub : PairSound .wideWide (.big .geThenSub) (.wqop .sub true) := by
 
 theorem ps_wmul : PairSound .wideWide (.big (.bitsLe .mul 256)) (.wqml true true) := by
   intro ty a b v ha hb hct
-  simp only [ctMethod, ctEval, evalBody, bigOp, ctFilter] at hct
+  simp only [ctMethod, ctEval, evalBody, bigOp, ctFilter, reduceCtorEq, false_and, if_false] at hct
   simp only [vmExec, Cls.rhsWide]
   split at hct <;> simp at hct
   subst hct
@@ -342,6 +364,8 @@ theorem ps_wshl_guarded (g : Nat) : PairSound .wideShift (.big (.shlGuardedBitsL
 theorem ps_wshl_plain : PairSound .wideShift (.big (.bitsLe .shl 256)) (.wqop .shl false) := by
   intro ty a b v ha hb hct
   simp only [ctMethod, ctEval, evalBody, bigOp, ctFilter] at hct
+  split at hct
+  · simp at hct
   split at hct <;> simp at hct
   subst hct
   rename_i hbits
@@ -668,7 +692,9 @@ theorem evalBody_ne_crash (body : U256Body) (h : bodyCrashFree body = true) (a b
   | bitsLe op bound =>
     obtain ⟨v, hv⟩ := bigOp_total op h a b
     simp only [evalBody, hv]
-    exact ctFilter_ne_crash _ _ (by simp)
+    split
+    · simp
+    · exact ctFilter_ne_crash _ _ (by simp)
   | geThenSub =>
     simp only [evalBody, bigOp]
     by_cases hge : a ≥ b
